@@ -100,14 +100,26 @@ Print Assumptions c10_online_count_refuted.
    converged: for p2p partners u v with P on both sides and me(v) loaded,
               perSubs_v(u).online = true <-> me(u) has a foreground session attached; and for every member u
               (with P) of a group g with me(u) loaded, perSubs_u(g).online = true <-> g has an attached session. *)
+(* REFUTED for all schedules, without any permission change: handleTopicTimeout sends hub.unreg before the
+   "off" fan-out, which can then overtake the "on" of the re-created topic (finding converges-unload-race). *)
 Theorem c10_converges_refuted : ~ c10_converges_statement.
-Proof. exact converges_refuted_unmute. Qed.
+Proof. exact converges_refuted_race. Qed.
 Print Assumptions c10_converges_refuted.
 
-(* a second, independent refutation without any permission change: a schedule of handleTopicTimeout *)
-Theorem c10_converges_refuted_race : ~ c10_converges_statement.
-Proof. exact converges_refuted_race. Qed.
-Print Assumptions c10_converges_refuted_race.
+(* The model follows the code WITH the repair findings/C10_p2p_unmute.diff (notifySubChange sends "?unkn+en"
+   for an un-muted p2p subscription too).  About the code BEFORE it (step_unrepaired / run_unrepaired) the
+   statement is refuted by mute + un-mute: the un-muting user's contact entry stays disabled. *)
+Theorem c10_converges_p2p_unmute_unrepaired_refuted : ~ c10_converges_statement_unrepaired.
+Proof. exact converges_p2p_unmute_unrepaired_refuted. Qed.
+Print Assumptions c10_converges_p2p_unmute_unrepaired_refuted.
+
+(* ... and with the repair the same history ends with the entry enabled and online. *)
+Theorem c10_p2p_unmute_repaired :
+  quiescent_b (fst (run init (h_unmute ++ [D; D; D]))) = true /\
+  exists m, get_me (fst (run init (h_unmute ++ [D; D; D]))) 1 = Some m /\
+            aget tname_eqb (TMe 2) (me_subs m) = Some (mkPsd true true).
+Proof. exact p2p_unmute_repaired. Qed.
+Print Assumptions c10_p2p_unmute_repaired.
 
 (* the hypotheses are satisfiable: quiescent reachable states exist, and convergence holds on the plain handshake *)
 Example c10_quiescent_example :
